@@ -877,3 +877,131 @@ _reg19e = register
 def register(R):  # noqa: F811
     _reg19e(R)
     register_dirs(R)
+
+
+# ---------------------------------------------------------------------------
+# Population.from_swc / from_eswc: the population of the files found, in find_swcs' order; construction reads at most the
+# first file (the constructor's `isinstance(swcs[0], str)` probe), through LazyLoadingTrees.__getitem__(0).
+def register_from_swc(R):
+    from pyvc.values import Obj, PDict, zint
+    from swcgeom.core.population import LazyLoadingTrees, Population
+
+    def res_lz(v):
+        r = v["result"]
+        if not (isinstance(r, Obj) and r.cls is Population):
+            return None
+        lz = r.fields.get("trees")
+        if not (isinstance(lz, Obj) and lz.cls is LazyLoadingTrees and all(isinstance(lz.fields.get(f), PList) for f in ("swcs", "trees", "reads"))):
+            return None
+        return lz
+
+    def shape(E, v, o):
+        lz = res_lz(v)
+        return lz is not None and E.is_same(v["result"].fields.get("root"), o["root"]) is True and lz.fields["swcs"].uid not in E.entry_uids
+
+    def files(which):
+        def f(E, v, o):
+            lz = res_lz(v)
+            if lz is None:
+                return False
+            rz, xz = X.zref(o["root"]), X.zref(o["ext"])
+            return found_files(lz.fields["swcs"], rz, xz, False, X.WLEN(rz), with_axioms=False)[which]
+
+        return f
+
+    def one_walk(E, v, o):
+        cs = [a for nm, a in E.call_log if nm == "Population.find_swcs"]
+        return len(cs) == 1 and E.is_same(cs[0]["root"], o["root"]) is True and E.is_same(cs[0]["ext"], o["ext"]) is True and cs[0]["relpath"] is False
+
+    def lazy_state(E, v, o):
+        """nothing is loaded or counted as read, except possibly the first file (then exactly once, and it is that file's tree)"""
+        lz = res_lz(v)
+        if lz is None:
+            return False
+        S, T, Rd = (lz.fields[f] for f in ("swcs", "trees", "reads"))
+        j = z3.Int(fresh_name("j"))
+        n = zint(S.n)
+        sel = z3.Select
+        return z3.And(zint(T.n) == n, zint(Rd.n) == n,
+                      z3.ForAll([j], z3.Implies(z3.And(j >= 1, j < n), z3.And(sel(T.cols[0], j) == 0, sel(Rd.cols[0], j) == 0))),
+                      z3.Implies(n > 0, z3.And(sel(Rd.cols[0], 0) >= 0, sel(Rd.cols[0], 0) <= 1, (sel(Rd.cols[0], 0) == 0) == (sel(T.cols[0], 0) == 0),
+                                               z3.Implies(sel(T.cols[0], 0) != 0, sel(T.cols[0], 0) == TREE_OF(sel(S.cols[0], 0))))))
+
+    def kwargs_forwarded(E, v, o):
+        lz = res_lz(v)
+        if lz is None:
+            return False
+        kw = lz.fields.get("kwargs")
+        want = o["kwargs"]
+        if not (isinstance(kw, PDict) and kw.items is not None and set(kw.items) == set(want.items)):
+            return False
+        acc = True
+        for k0, x in want.items.items():
+            y = kw.items[k0]
+            if isinstance(x, PList) and isinstance(y, PList) and x.items is not None and y.items is not None:
+                acc = acc and len(x.items) == len(y.items) and all(a == b or a is b for a, b in zip(x.items, y.items))
+            else:
+                acc = acc and (x is y or E.is_same(x, y) is True)
+        return acc
+
+    PROBE = ("at-most-a-probe-of-the-first-file :: ncalls('Tree.from_swc') == 0 and ncalls('LazyLoadingTrees.load') == 0 and ncalls('LazyLoadingTrees.__getitem__') <= 1 "
+             "and implies(ncalls('LazyLoadingTrees.__getitem__') == 1, callarg('LazyLoadingTrees.__getitem__', 0, 'key') == 0)")
+    COMMON = [("a-population-on-a-lazy-container-rooted-at-root-with-a-private-file-list", shape),
+              ("walks-the-directory-once-with-the-given-extension-absolute-paths", one_walk),
+              ("number-of-trees-is-the-number-of-files-found", files("length")),
+              ("i-th-tree-is-the-i-th-file-in-walk-order", files("content")),
+              ("nothing-loaded-or-read-except-possibly-the-first-file", lazy_state),
+              PROBE,
+              ("reader-options-forwarded-unchanged", kwargs_forwarded)]
+
+    def from_setup(with_kw):
+        def f(S):
+            kw = PDict({"extra_cols": PList(["a"])}) if with_kw else PDict({})
+            return dict(cls=Population, root=X.StrRef(S.int("root").z), ext=X.StrRef(S.int("ext").z), kwargs=kw, __ghost__=GHOST)
+
+        return f
+
+    R.add(f"{POP}:Population.from_swc", prop="C19",
+          variants={"no-options": from_setup(False), "with-reader-options": from_setup(True)},
+          raises={"FileNotFoundError": "only-when-the-root-does-not-exist :: not path_exists(root)"},
+          ensures=[("root-exists", lambda E, v, o: X.EXISTS(X.zref(o["root"])))] + COMMON,
+          notes="os.path.exists is a model; find_swcs is used through its contract; the constructors are inlined")
+
+    # from_eswc: the same population, the reader is told the extra columns: the given ones followed by the eswc columns
+    def eswc_setup(given):
+        def f(S):
+            g = None if given is None else PList(list(given))
+            return dict(cls=Population, root=X.StrRef(S.int("root").z), ext=X.StrRef(S.int("ext").z), extra_cols=g, given=g, kwargs=PDict({}), __ghost__=GHOST)
+
+        return f
+
+    def eswc_cols(E, v, o):
+        from swcgeom.core.swc import eswc_cols as real
+
+        lz = res_lz(v)
+        if lz is None:
+            return False
+        kw = lz.fields["kwargs"]
+        given = o["extra_cols"]
+        want = (list(given.items) if given is not None else []) + [k for k, _ in real]
+        got = kw.items.get("extra_cols") if kw.items is not None else None
+        return isinstance(got, PList) and got.items == want and set(kw.items) == {"extra_cols"}
+
+    def caller_list_untouched(E, v, o):
+        """the caller's extra_cols list is copied, not extended in place"""
+        g = v.get("given")
+        return True if g is None else (g.items == list(o["given"].items) and g is not res_lz(v).fields["kwargs"].items.get("extra_cols"))
+
+    R.add(f"{POP}:Population.from_eswc", prop="C19",
+          variants={"no-extra-columns": eswc_setup(None), "two-extra-columns": eswc_setup(("u", "w"))},
+          raises={"FileNotFoundError": "only-when-the-root-does-not-exist :: not path_exists(root)"},
+          ensures=[c for c in COMMON if c[0] != "reader-options-forwarded-unchanged"] + [("extra-columns-are-the-given-ones-then-the-eswc-columns", eswc_cols), ("callers-column-list-untouched", caller_list_untouched)],
+          notes="from_swc inlined")
+
+
+_reg19f = register
+
+
+def register(R):  # noqa: F811
+    _reg19f(R)
+    register_from_swc(R)
